@@ -799,7 +799,7 @@ impl BufferParser for Parser {
                         self.save_cursor_position(caret);
                         return Ok(CallbackAction::NoUpdate);
                     }
-                    'u' => self.restore_cursor_position(caret),
+                    'u' => self.restore_cursor_position(buf, caret),
                     'd' => {
                         // CSI Pn d
                         // VPA - Line position absolute
